@@ -1,0 +1,12 @@
+//go:build verif
+
+// Contracts for package warnings, read by the /verif VC generator (govc). Comments only.
+
+package warnings
+
+// C09: "the warning names that row's file, its 1-based row number and exactly that row's cell contents"
+//@ func NewStaticWarning
+//@   props C05 C09
+//@   requires csvFile != nil
+//@   ensures [names-the-file-and-row] result.File == csvFile.name && result.RowNumber == csvFile.rowNumber && result.Kind == kind
+//@   ensures [header] result.HeaderContent == csvFile.headerContent
